@@ -3,6 +3,8 @@
 
 pub mod align;
 pub mod kinds;
+pub mod text;
+pub mod variant;
 
 use std::io::{self, BufRead, BufReader, Read, Seek};
 use std::sync::Arc;
